@@ -1,5 +1,6 @@
 """C12 — fit_points / fit_function solve the discrete least-squares problem exactly."""
 from common import *  # noqa: F401,F403
+import units
 
 RULE = ("random target curves (polynomial and rational bases, degree 0..3, repeated knots) with random points at (a) default nodes, (b) explicit "
         "random nodes (len = npts: interpolation; len > npts: least squares), (c) samples of a curve of the same space (reproduction), nodes repeated with unequal counts; "
@@ -16,6 +17,9 @@ from props.c11 import rank  # noqa: E402
 def run_case(ctx, case):
     rec, drv = ctx["rec"], ctx["drv"]
     c = de(case)
+    if c.get("kind") == "linalg":
+        rec.case(case, nontrivial=True)
+        return units.tie_linalg(rec, drv, case, c["A"], c["B"])
     U, W, kind = c["U"], c["W"], c["kind"]
     p, n, knots = kv_info(U)
     rec.case(case, nontrivial=nontrivial_kv(U))
@@ -133,10 +137,29 @@ def run_highdeg(ctx):
         run_case(ctx, ser(dict(kind="points", U=U, W=None, points=rand_points(rng, len(nodes), 1), nodes=nodes)))
 
 
+def run_linalg(ctx):
+    """unit ties of heavy.Linalg (exact Gauss-Jordan / least-squares operator) with the model the normal-equation theorems use"""
+    rng, rec, drv = ctx["rng"], ctx["rec"], ctx["drv"]
+    for i in range(budget(ctx, 25, 250)):
+        n = rng.randint(1, 5)
+        m = n + rng.choice([0, 0, 1, 2, 3])
+        big = rng.random() < 0.2
+        A = [[F(rng.randint(-9, 9) * (10**12 if big else 1), rng.randint(1, 4)) for _ in range(n)] for _ in range(m)]
+        if rank([list(r) for r in A]) < n:
+            continue          # singular / rank-deficient systems are not what the fit hands over (unisolvent nodes)
+        wid = rng.randint(1, 3)
+        B = [[F(rng.randint(-9, 9), rng.randint(1, 3)) for _ in range(wid)] for _ in range(m)]
+        case = ser(dict(kind="linalg", A=A, B=B))
+        rec.case(case, nontrivial=(n > 1))
+        rec.count("kind", "linalg-square" if m == n else "linalg-tall")
+        units.tie_linalg(rec, drv, case, A, B)
+
+
 def run(ctx):
     rng = ctx["rng"]
     run_history(ctx)
     run_highdeg(ctx)
+    run_linalg(ctx)
     for i in range(budget(ctx, 90, 1200)):
         U = rand_kv(rng, pmax=3, nintmax=3)
         if i % 7 == 4:
